@@ -44,7 +44,9 @@ def oracle_top_sort(inst: Instance):
 
 
 def new_model(repo):
-    M = cm.Model(repo, Denotations(repo))
+    M = cm.Model(repo, Denotations(repo), real_gates=True)     # the repository's own Gate class (its __eq__ is part of what is folded)
+    M.interp.real_super = True
+    M.interp.instance_dunders = True
     # (the attached circuit is copied in the order of its own top_sort: the repository's Kahn loop is folded with it, run to
     # completion; it used to be replaced by an oracle order, which hid a seeded change to top_sort from C10 and C13)
     M.interp.eager_generators.add('cirbo.core.circuit.circuit.Circuit.top_sort')
@@ -298,6 +300,10 @@ def fold_miter(ck: Checker, R: str):
         for k in (range(width) if width <= 6 else (0, width // 2, width - 3, width - 2, width - 1)):
             routs = tuple((f'n{i % 3}' if i == k else f'g{i % 3}') for i in range(width))
             many.append(((wide, louts), (wide, routs)))
+    # the same netlist twice, the inputs listed in another order on one side (positionally different functions)
+    asym = [('a', 'INPUT', ()), ('b', 'INPUT', ()), ('c', 'INPUT', ()), ('g', 'GT', ('a', 'b')), ('h', 'OR', ('g', 'c'))]
+    asym_r = [('b', 'INPUT', ()), ('a', 'INPUT', ()), ('c', 'INPUT', ())] + asym[3:]
+    many += [((asym, ('h',)), (asym_r, ('h',))), ((asym, ('h', 'g')), (asym, ('h', 'g')))]
     probs = []
     n = 0
     for fam in (T1, T2, T0, many):
